@@ -650,12 +650,15 @@ namespace LineOrientation
 def H (X0 : Xf K) : List (SV K) := [⟨X0.R.col0, V3.zero⟩, ⟨X0.R.col1, V3.zero⟩]
 def HDot (X0 : Xf K) (w0 : V3 K) : List (SV K) :=
   [⟨V3.cross w0 X0.R.col0, V3.zero⟩, ⟨V3.cross w0 X0.R.col1, V3.zero⟩]
+/-- `setUToFitAngularVelocityImpl`: x,y of `~R_FM * w_FM` -/
+def fitU (X0 : Xf K) (V : SV K) : List K := let wM := X0.R.tr.mulVec V.w; [wM.x, wM.y]
 end LineOrientation
 
 namespace FreeLine
 def H (X0 : Xf K) : List (SV K) :=
   LineOrientation.H X0 ++ [⟨V3.zero, V3.ex⟩, ⟨V3.zero, V3.ey⟩, ⟨V3.zero, V3.ez⟩]
 def HDot (X0 : Xf K) (w0 : V3 K) : List (SV K) := LineOrientation.HDot X0 w0 ++ [SV.zero, SV.zero, SV.zero]
+def fitU (X0 : Xf K) (V : SV K) : List K := LineOrientation.fitU X0 V ++ [V.v.x, V.v.y, V.v.z]
 end FreeLine
 
 namespace Cantilever
@@ -981,6 +984,63 @@ def Spec.docX0 (S : Spec K) (C : Coords K) : Xf K :=
     ⟨if S.euler then Gimbal.docR (c 0) (c 1) (c 2) (s 0) (s 1) (s 2) else Ball.docRq C.quat C.oon,
      v3at C.q (if S.euler then 3 else 4)⟩
   | .weld => Xf.one
+
+/-- `setUToFitVelocityImpl(V_F0M0)` (angular then linear) of the types whose fit is algebraic and does not read the
+current `u`; `none` for the others (BendStretch, SphericalCoords, Ellipsoid, Cantilever: implementation predicates only) -/
+def Spec.fitU (S : Spec K) (C : Coords K) (X0 : Xf K) (V0 : SV K) : Option (List K) :=
+  match S.ty with
+  | .pin => some (Pin.fitU V0)
+  | .slider => some (Slider.fitU V0)
+  | .cylinder => some (Cylinder.fitU V0)
+  | .screw => some [V0.v.z / g S.par 0]            -- the linear fit (`v.z/pitch`) overrides the angular one
+  | .translation => some (Translation.fitU V0)
+  | .planar => some (Planar.fitU V0)
+  | .universal => some (Universal.fitU X0 V0)
+  | .gimbal => some (Gimbal.fitU (g C.c 0) (g C.s 0) (g C.s 1) C.ooc1 V0)
+  | .bushing => some (Bushing.fitU (g C.c 0) (g C.s 0) (g C.s 1) C.ooc1 V0)
+  | .ball => some (Ball.fitU V0)
+  | .free => some (Free.fitU V0)
+  | .lineOrientation => some (LineOrientation.fitU X0 V0)
+  | .freeLine => some (FreeLine.fitU X0 V0)
+  | _ => none
+
+/-- `setQToFitTranslationImpl(p_F0M0)`: the translational coordinates of the types whose translation fit is a copy -/
+def Spec.fitQtrans (S : Spec K) (p : V3 K) : Option (List K) :=
+  match S.ty with
+  | .slider => some [Slider.fitQ ⟨M33.one, p⟩]
+  | .translation => some (l3 (Translation.fitQ ⟨M33.one, p⟩))
+  | .cylinder => some [p.z]
+  | .planar => some [p.x, p.y]
+  | .bushing | .free | .freeLine => some (l3 p)
+  | _ => none
+
+/-! ### Representation changes (C06) -/
+
+/-- the quaternion of the body-fixed x-y-z sequence: `qx ⊗ qy ⊗ qz` of the elementary half-angle quaternions
+(what `convertToQuaternions` must produce, up to sign, from Euler angles with half-angle pairs `(ch,sh)`) -/
+def eulerQuat (ch0 sh0 ch1 sh1 ch2 sh2 : K) : Q4 K :=
+  Q4.hmul (Q4.hmul ⟨ch0, sh0, 0, 0⟩ ⟨ch1, 0, sh1, 0⟩) ⟨ch2, 0, 0, sh2⟩
+
+/-- `FunctionBasedImpl::calcMobilizerTransformFromQ` with the default axes: body-fixed x-y-z of the three rotation
+function values (given as trig pairs), translation function values along F's x,y,z -/
+def functionBasedX (c0 c1 c2 s0 s1 s2 : K) (p : V3 K) : Xf K :=
+  ⟨M33.mul (M33.mul (rotAxis V3.ex c0 s0) (rotAxis V3.ey c1 s1)) (rotAxis V3.ez c2 s2),
+   V3.add (V3.add (V3.smul p.x V3.ex) (V3.smul p.y V3.ey)) (V3.smul p.z V3.ez)⟩
+
+/-- the FunctionBased mirror of a built-in type: coordinate `k` drives spatial function `slot` linearly, the other
+functions are the constant 0 (`cos 0 = 1`, `sin 0 = 0`) -/
+def Spec.fbX0 (S : Spec K) (C : Coords K) : Option (Xf K) :=
+  let c := g C.c; let s := g C.s; let q := g C.q
+  match S.ty with
+  | .pin => some (functionBasedX 1 1 (c 0) 0 0 (s 0) V3.zero)
+  | .slider => some (functionBasedX 1 1 1 0 0 0 ⟨q 0, 0, 0⟩)
+  | .cylinder => some (functionBasedX 1 1 (c 0) 0 0 (s 0) ⟨0, 0, q 1⟩)
+  | .planar => some (functionBasedX 1 1 (c 0) 0 0 (s 0) ⟨q 1, q 2, 0⟩)
+  | .universal => some (functionBasedX (c 0) (c 1) 1 (s 0) (s 1) 0 V3.zero)
+  | .gimbal => some (functionBasedX (c 0) (c 1) (c 2) (s 0) (s 1) (s 2) V3.zero)
+  | .bushing => some (functionBasedX (c 0) (c 1) (c 2) (s 0) (s 1) (s 2) (v3at C.q 3))
+  | .translation => some (functionBasedX 1 1 1 0 0 0 (v3at C.q 0))
+  | _ => none
 
 /-- all kinematic results of one mobilized body, given its parent's pose and velocity -/
 structure BodyKin (K : Type) where
